@@ -377,8 +377,19 @@ func helperCases() []hcase {
 						}
 						return 0
 					})[0],
-					apply1(in[0], func(x float64) float64 { return math.Max(x-2, 0) })[0],
-					apply1(in[0], func(x float64) float64 { return math.Min(x-2, 0) })[0],
+					// "keep the positive (negative) values, replace the others with zero": NaN is neither
+					apply1(in[0], func(x float64) float64 {
+						if x-2 > 0 {
+							return x - 2
+						}
+						return 0
+					})[0],
+					apply1(in[0], func(x float64) float64 {
+						if x-2 < 0 {
+							return x - 2
+						}
+						return 0
+					})[0],
 				}
 			}},
 		{name: "MultiplyBy/DivideBy/IncrementBy/Pow/Sqrt/RoundDigits", arity: 1, params: none, consumes: true,
@@ -593,6 +604,59 @@ func helperUnit(c *core.Ctx, h hcase, params []int) {
 				if scen == 20 {
 					c.Sample(map[string]any{"helper": h.name, "input": in, "param": p, "capacity": cp, "model": want, "dpor_traces": s1.Executions, "delay_bounded_executions": s2.Executions, "first_events": s1.SampleTrace})
 				}
+			}
+		}
+	}
+	// element values that are no small integers: NaN, +Inf, a negative fraction, zero - the slice model is plain IEEE
+	// arithmetic on the same values, so the results must agree bit for bit (one execution under the canonical schedule
+	// per sequence; the schedules were explored above)
+	special := []float64{math.NaN(), math.Inf(1), -1.5, 0, 7}
+	maxL := map[int]int{1: 4, 2: 2, 3: 1}[h.arity]
+	var one [][]float64
+	var gen func(cur []float64)
+	gen = func(cur []float64) {
+		one = append(one, append([]float64{}, cur...))
+		if len(cur) == maxL {
+			return
+		}
+		for _, v := range special {
+			gen(append(cur, v))
+		}
+	}
+	gen(nil)
+	var tuples [][][]float64
+	switch h.arity {
+	case 1:
+		for _, a := range one {
+			tuples = append(tuples, [][]float64{a})
+		}
+	case 2:
+		for _, a := range one {
+			for _, b := range one {
+				tuples = append(tuples, [][]float64{a, b})
+			}
+		}
+	case 3:
+		for _, a := range one {
+			for _, b := range one {
+				for _, d := range one {
+					tuples = append(tuples, [][]float64{a, b, d})
+				}
+			}
+		}
+	}
+	for _, in := range tuples {
+		for _, p := range params {
+			if h.skip != nil && h.skip(in, p) {
+				continue
+			}
+			st := explore.S0(helperScenario(h, in, p, 0, h.model(in, p)), explore.Opts{})
+			scen++
+			c.Executions += int64(st.Executions)
+			c.Transitions += int64(st.Events)
+			for _, v := range st.Violations {
+				c.Fail("", fmt.Sprintf("helper.%s input %v param %d (non-integer element values, canonical schedule): %s", h.name, in, p, v.Text), map[string]any{"helper": h.name, "input": fmt.Sprint(in), "param": p})
+				break
 			}
 		}
 	}
